@@ -17,6 +17,8 @@ Decided (all on normal forms, nothing on source text or positions):
                    visits every match of HourTimeRegex, which finds exactly the two-digit T-hours of a TIMEX.
   C07.timex-pad    every hour / minute / second the time decoders print right after 'T' or ':' in a TIMEX
                    f-string is zero padded to two digits (HourTimeRegex only sees 'T\\d\\d').
+  C07.ampm-table   time parsers: the path condition of the AM/PM comment, tabulated over hour 0..24 x its boolean flags, is
+                   true exactly for hours 1..12 and never when a flag set together with a 12-hour shift / pinned hour is true.
   C07.compose      "<date> at <time>": in every date-time / date-time-range parser function that parses a time
                    sub-entity, the TIMEX it assigns is derived (dataflow) from that sub-result's own timex_str - and
                    from the date sub-result's timex_str when a date is parsed too - and format_short_time /
